@@ -104,10 +104,15 @@ def run(ctx):
     t0 = time.time()
     real = C01.run_real(bindir, texts, watchdog_ms=(4000 if ctx.quick else 10000), budget={"left": 25})
     # a watchdog hit is confirmed with a long limit before it counts (a loaded machine must not raise an alarm)
-    confirm_ms = 40000
+    # (at most 3 confirmations: every further hit is dropped as "skipped", the confirmed ones are the evidence)
+    confirm_ms, confirmed = 40000, 0
     for i, r in enumerate(real):
         if "timeout" in r:
-            real[i] = C01.run_real(bindir, [texts[i]], timeout=120, watchdog_ms=confirm_ms)[0]
+            if confirmed < 3:
+                real[i] = C01.run_real(bindir, [texts[i]], timeout=120, watchdog_ms=confirm_ms)[0]
+                confirmed += 1 if "timeout" in real[i] else 0
+            else:
+                real[i] = {"skipped": True}
     t_real = time.time() - t0
     t0 = time.time()
     model = synlib.model_lines(exe, "parse", texts, timeout=1500)
@@ -148,7 +153,9 @@ def run(ctx):
 
     found, reported = False, set()
     for fam, t, why in oracle_fail[:40]:
-        small = C01.shrink(t, still_fails) if (len(t) <= 5000 and "work not linear" not in why) else t
+        hang = "did not return" in why or "died" in why
+        can_shrink = len(t) <= 5000 and "work not linear" not in why and len(reported) < 2
+        small = C01.shrink(t, still_fails, budget=(5 if hang else 12)) if can_shrink else t
         if small in reported:
             continue
         reported.add(small)
